@@ -178,7 +178,7 @@ func genC08deep(c *lp.Ctx) {
 			line := cs.Line()
 			if got := c.Do(line); got != "err:out-of-order" {
 				c.Violate(lp.Violation{What: fmt.Sprintf("order violation at index %d of %d keys must be rejected with ErrKeyOutOfOrder", i, n),
-					Script: []string{fmt.Sprintf("trie.new %s none k0000000 .. k%07d with keys[%d], keys[%d] = %q, %q", cs.Flags, n-1, i, i+1, keys[i], keys[i+1])},
+					Script:   []string{fmt.Sprintf("trie.new %s none k0000000 .. k%07d with keys[%d], keys[%d] = %q, %q", cs.Flags, n-1, i, i+1, keys[i], keys[i+1])},
 					Expected: "err:out-of-order", Got: got})
 			}
 		}
